@@ -247,7 +247,12 @@ def m_side(eng, st, callee, a, ty):
         n = eng.deref(n)
     if isinstance(n, Agg) and n.kind == "Cow":
         n = n.f[0]
-    st.env.setdefault("side_sites", []).append(n.data.get("tid") if isinstance(n, Opaque) else None)
+    site = None
+    if isinstance(n, Opaque) and isinstance(n.data, dict):
+        site = n.data.get("tid")
+        if site is None:
+            site = n.data.get("nid")
+    st.env.setdefault("side_sites", []).append(site)
     return one(Agg("Side", z3.If(b, BV(1, 64), BV(0, 64)), {}))
 
 
@@ -285,7 +290,8 @@ def m_cow_vec_deref(eng, st, callee, a, ty):
 def m_create_split(eng, st, callee, a, ty):
     z = eng.fresh("zero_normal", z3.BoolSort())
     st.env.setdefault("splits_created", []).append(z)
-    return one(mk_ok(Agg("Cow", BV(1, 64), {0: Opaque("normal", {"zero": z})})))
+    nid = f"new{len(st.env['splits_created'])}"      # identity of this freshly created normal
+    return one(mk_ok(Agg("Cow", BV(1, 64), {0: Opaque("normal", {"zero": z, "nid": nid})})))
 
 
 # ------------------------------------------------------------------------------------ callbacks
